@@ -11,6 +11,7 @@ CONSTANTS
   UniqueVals = FALSE
   Ghost = FALSE
   Mut = "none"
+  MaxDie = 0
   EdgeFile = "edges-GenFin2x112.ndjson"
 INIT Init
 NEXT Next
